@@ -190,7 +190,7 @@ func genIdxcCase(r *wire.Rng, n int, w *wire.Out) {
 				}
 			}
 			cur = nc
-			w.Line(toks...)
+			w.Line(withDuplicate(r, toks, false, true)...)
 		case x < 82:
 			w.Line("sync")
 		case x < 92:
